@@ -279,6 +279,9 @@ let m_pairs_test env lab (p : M.pairs M.res) with_scripts =
       let all = r2s (fun l -> String.concat " " (List.map (m_idx env) l)) (M.pairs_find_tagged q (nat_of_int ti) p) in
       let first = r2s (m_item env) (M.pairs_find_first_tagged q (nat_of_int ti) p) in
       emit env (Printf.sprintf "%s.tag%d" lab ti) (all ^ "|" ^ first)) tags;
+    (* the harness compares the views of every pair reached by flatten / rev / peek / find_tagged with the views of the same
+       pair reached by next + into_inner and lists the differences: a pair is its start index in the model (Views.v), so none *)
+    emit env (lab ^ ".alt") "";
     if with_scripts then List.iteri (fun n sc ->
       emit env (Printf.sprintf "%s.sp%d" lab n)
         (script pn pb (fun st -> Some (string_of_int (int_of_nat (M.pairs_len st)))) (fun st -> Some (m_item env (M.pairs_peek st))) p sc)) env.scripts
@@ -382,6 +385,7 @@ let s_pairs_test env lab (f : itree list) with_scripts =
     let hits = List.filter (fun it -> M.has_tag (nat_of_int ti) it.t) fl in
     semit env (Printf.sprintf "%s.tag%d" lab ti)
       (String.concat " " (List.map (fun it -> string_of_int it.k) hits) ^ "|" ^ (match hits with [] -> "-" | x :: _ -> string_of_int x.k))) tags;
+  semit env (lab ^ ".alt") "";
   if with_scripts then List.iteri (fun n sc ->
     semit env (Printf.sprintf "%s.sp%d" lab n) (script (lm_next s_item) (lm_back s_item) lm_len (lm_peek s_item) f sc)) env.sscripts
 
@@ -413,7 +417,8 @@ let contains s sub =
 
 (* class of a differing segment: the three repaired functions, or anything else *)
 let classify label a b =
-  if String.length label > 0 && label.[0] = 'G' then "single"
+  if contains label ".alt" then "other"
+  else if String.length label > 0 && label.[0] = 'G' then "single"
   else if contains label ".F" || contains label ".sf" then
     (* only the len numbers may differ for this class: compare with digits removed *)
     let strip s = String.concat "" (List.filter (fun x -> x <> "") (String.split_on_char ' ' (String.map (fun c -> if c >= '0' && c <= '9' then ' ' else c) s))) in
@@ -421,31 +426,53 @@ let classify label a b =
   else if contains label ".S" && but_last a = but_last b && last_field a <> last_field b then "json"
   else "other"
 
+(* what differs: the label without its numbers and the index of the first differing `|` field *)
+let signature label a b =
+  let l = String.concat "" (String.split_on_char ' ' (String.map (fun c -> if c >= '0' && c <= '9' then ' ' else c) label)) in
+  let rec first i x y = match x, y with
+    | u :: r1, v :: r2 -> if u = v then first (i + 1) r1 r2 else i
+    | _ -> i in
+  Printf.sprintf "%s#%d" l (first 0 (String.split_on_char '|' a) (String.split_on_char '|' b))
 let counts : (string, int) Hashtbl.t = Hashtbl.create 16
+let sig_counts : (string, int) Hashtbl.t = Hashtbl.create 64
+let printed = ref 0
 let report_c kind cls case label a b =
   incr mismatches;
   let key = kind ^ "/" ^ cls in
   let c = try Hashtbl.find counts key with Not_found -> 0 in
   Hashtbl.replace counts key (c + 1);
-  if c < 12 then begin
+  (* a few cases per (kind, class, what differs), so that every way of differing reaches the driver *)
+  let skey = key ^ "/" ^ signature label a b in
+  let sc = try Hashtbl.find sig_counts skey with Not_found -> 0 in
+  Hashtbl.replace sig_counts skey (sc + 1);
+  if (c < 12 || sc < 4) && !printed < 400 then begin
+    incr printed;
     let cut s = if String.length s > 1500 then String.sub s 0 1500 ^ "..." else s in
     Printf.printf "MISMATCH\t%s\t%s\t%s|%s|%s\t%s\n" kind case cls label (cut a) (cut b)
   end
 
+(* labels at which the implementation differs from the SPECIFICATION on the current case (filled by the "spec" comparison,
+   which runs before the "model" one): a difference from the model at such a label is the same failing observation and is
+   reported as kind `modelx` (explained by a property violation on this very case), any other one as kind `model` *)
+let spec_diff : (string, unit) Hashtbl.t = Hashtbl.create 16
 let compare_obs kind case (impl : (string * string) list) (exp : (string * string) list) =
   let seen = Hashtbl.create 4 in
+  let kind_at l = if kind = "model" && Hashtbl.mem spec_diff l then "modelx" else kind in
+  let note l = if kind = "spec" then Hashtbl.replace spec_diff l () in
   let rec go a b = match a, b with
     | [], [] -> ()
     | (l1, v1) :: r1, (l2, v2) :: r2 ->
-      if l1 <> l2 then report_c kind "other" case (l1 ^ "/" ^ l2) v1 v2
+      if l1 <> l2 then begin let l = l1 ^ "/" ^ l2 in let k = kind_at l in note l; report_c k "other" case l v1 v2 end
       else begin
-        (if v1 <> v2 then
+        (if v1 <> v2 then begin
            let cls = classify l1 v1 v2 in
-           if not (Hashtbl.mem seen cls) then begin Hashtbl.add seen cls (); report_c kind cls case l1 v1 v2 end);
+           let k = kind_at l1 in
+           note l1;
+           if not (Hashtbl.mem seen (k, cls)) then begin Hashtbl.add seen (k, cls) (); report_c k cls case l1 v1 v2 end end);
         go r1 r2
       end
-    | (l1, v1) :: _, [] -> report_c kind "other" case (l1 ^ "/<end>") v1 ""
-    | [], (l2, v2) :: _ -> report_c kind "other" case ("<end>/" ^ l2) "" v2 in
+    | (l1, v1) :: _, [] -> let l = l1 ^ "/<end>" in let k = kind_at l in note l; report_c k "other" case l v1 ""
+    | [], (l2, v2) :: _ -> let l = "<end>/" ^ l2 in let k = kind_at l in note l; report_c k "other" case l "" v2 in
   go impl exp
 
 (* ---------------- main ---------------- *)
@@ -469,6 +496,7 @@ let () =
     match split_tab line with
     | [case; impl_s] ->
       incr n;
+      Hashtbl.reset spec_diff;
       (match splitn case '|' 6 with
        | [kind; d; h; scripts; input_e; payload] ->
          let d = int_of_string d and h = int_of_string h in
